@@ -308,6 +308,9 @@ def _signature(case, symptom):
             hz = hazards(real) or hazards(keys)
             return (b[0][0].split(':')[0] + ':' + (
                 ','.join(hz) if hz else 'no-collision'))
+    sl = _slots(case['shape'])
+    if len(sl) != len(set(sl)):
+        return symptom.split(':')[0] + ':repeated-operand'
     keys = build(case, tuple(range(k)))[1]
     hz = hazards(keys)
     if hz:
@@ -344,6 +347,55 @@ def cases(ctx: Ctx):
                             'theme': tname, 'ctx': cname, 'point': pt,
                             'atoms': [sub[i] for i in combo],
                             'shape': shape})
+    return out
+
+
+def _slots(shape):
+    out = []
+    for x in shape:
+        if isinstance(x, list):
+            out += _slots(x)
+        elif not isinstance(x, str):
+            out.append(x)
+    return out
+
+
+def _fill(shape, mapping):
+    return [_fill(x, mapping) if isinstance(x, list)
+            else x if isinstance(x, str) else mapping[x] for x in shape]
+
+
+def repeat_cases(ctx: Ctx):
+    """Every shape with 2-4 operand slots, the slots filled from fewer
+    distinct atoms than slots (every surjection: at least one atom occurs
+    twice), including an atom that is pre-initial at the first point."""
+    pool = [['a', None, 'succeeded'], ['b', None, 'succeeded'],
+            ['a', '-P1', 'succeeded']]
+    if not ctx.quick:
+        pool.append(['c', None, 'out-2'])
+    out = []
+    for n in (2, 3, 4):
+        for shape in SHAPES[n]:
+            for m in range(1, n):
+                for mapping in itertools.product(range(m), repeat=n):
+                    if len(set(mapping)) != m:
+                        continue
+                    # canonical: first occurrences in increasing order (the
+                    # choice of atoms below is ordered anyway)
+                    firsts = []
+                    for v in mapping:
+                        if v not in firsts:
+                            firsts.append(v)
+                    if firsts != sorted(firsts):
+                        continue
+                    for chosen in itertools.permutations(
+                            range(len(pool)), m):
+                        for pt in ('1', '2'):
+                            out.append({
+                                'theme': 'repeats', 'ctx': 'int1',
+                                'point': pt,
+                                'atoms': [pool[i] for i in chosen],
+                                'shape': _fill(shape, mapping)})
     return out
 
 
@@ -437,6 +489,20 @@ def cfg_cases(ctx: Ctx):
                         'shape': [0, op, 1]})
         out.append({'mode': 'int', 'atoms': [a, b, ('p', '', '')],
                     'shape': [2, '&', [0, '|', 1]]})
+    # the same upstream output more than once in one expression
+    A, B, C, AP = ('a', '', ''), ('b', '', ''), ('c', '', 'out-2'), \
+        ('a', '[-P1]', '')
+    for atoms, shape in [
+        ([A, B, C], [0, '&', 1, '|', 0, '&', 2]),
+        ([A, B, C], [[0, '|', 1], '&', [0, '|', 2]]),
+        ([AP, B, C], [0, '&', 1, '|', 0, '&', 2]),
+        ([AP, B], [[0, '|', 1], '&', [1, '|', 0]]),
+        ([A], [0, '|', 0]),
+        ([C, B], [0, '|', 1, '&', 0]),
+        ([A, B], [0, '|', [1, '&', [0, '|', 1]]]),
+        ([A, AP], [0, '|', 1, '|', 0, '|', 1]),
+    ]:
+        out.append({'mode': 'int', 'atoms': atoms, 'shape': shape})
     for n1, n2 in itertools.permutations(names, 2):
         out.append({'mode': 'int', 'atoms': [(n1, '', ''), (n2, '', 'out')],
                     'shape': [0, '|', 1]})
@@ -531,6 +597,9 @@ def judge_cfg(job):
                 want = ref_eval(case['shape'], truth)
                 if got != want:
                     hz = hazards(keys)
+                    sl = _slots(case['shape'])
+                    if not hz and len(sl) != len(set(sl)):
+                        hz = ['repeated-operand']
                     bad.append((
                         ('eval-error' if isinstance(got, str)
                          else 'wrong-truth') + ':' + (
@@ -549,7 +618,7 @@ def judge_cfg(job):
 # ----------------------------------------------------------------- driving
 
 def run(ctx: Ctx) -> Result:
-    cs = cases(ctx)
+    cs = cases(ctx) + repeat_cases(ctx)
     parts = pmap(_work, chunks(cs, ctx.workers * 8), ctx.workers)
     vio = []
     evals = n_cases = nontrivial = 0
@@ -615,6 +684,11 @@ def run(ctx: Ctx) -> Result:
             'satisfaction': 'all subsets (one call) for every order; all '
                             'single-step sequences for the natural order',
             'contexts': sorted(CONTEXTS),
+            'repeated_operands': 'every shape with 2-4 slots x every '
+                                 'surjection of the slots onto fewer atoms '
+                                 'from a pool of %d (one pre-initial at '
+                                 'point 1) x ordered atom choices' % (
+                                     3 if ctx.quick else 4),
         },
     }
     return Result(cov, vios, assumptions=[
